@@ -677,7 +677,7 @@ func findStylesheets(wrapperElement *utils.HTMLNode, deviceMediaType string, url
 		}
 		media := strings.Split(mediaAttr, ",")
 		for i, s := range media {
-			media[i] = strings.TrimSpace(s)
+			media[i] = utils.AsciiLower(strings.TrimSpace(s)) // media types are case-insensitive
 		}
 		if !evaluateMediaQuery(media, deviceMediaType) {
 			continue
